@@ -366,6 +366,15 @@ func (s *sim) deliver(mb *mBlock) {
 	// C30: nothing at or below the last irreversible height was detached, and
 	// the height does not decrease while the node moves forward
 	lihAfter := s.node.arbiters.State.GetLastIrreversibleHeight()
+	if os.Getenv("SIM_DEBUG") != "" && len(s.arbKeys) > 0 {
+		var have []int
+		for k := 0; k < 8; k++ {
+			if s.node.chain.GetDB().IsSidechainTxHashDuplicate(sideHash(k)) {
+				have = append(have, k)
+			}
+		}
+		fmt.Fprintf(os.Stderr, "DEBUG withdrawn-hash index after #%d holds %v\n", mb.idx, have)
+	}
 	if os.Getenv("SIM_DEBUG") != "" {
 		fmt.Fprintf(os.Stderr, "DEBUG lih %d -> %d (tip h=%d, consensus %v, revertpowstart cfg %d state %d)\n", lihBefore, lihAfter, newTip.height, s.node.arbiters.State.GetConsensusAlgorithm(),
 			s.node.cfg.DPoSConfiguration.RevertToPOWStartHeight, s.node.arbiters.State.ChainParams.DPoSConfiguration.RevertToPOWStartHeight)
@@ -660,9 +669,19 @@ func (s *sim) minePool() {
 
 func (s *sim) restart() {
 	c := s.c
+	tipBefore := s.node.chain.GetBestChain().Hash.String()
 	s.node.close()
 	s.node = nil
 	synctest.Wait()
+	defer func() {
+		// (no property of its own: a restart that comes up on another block of
+		// the same height shows through the ledger / index oracles; counted and
+		// logged so that a replay names it)
+		if s.node != nil && s.node.chain.GetBestChain().Hash.String() != tipBefore {
+			c.Probe("restart-came-up-on-another-tip")
+			c.Logf("restart: tip before %.12s, after %.12s", tipBefore, s.node.chain.GetBestChain().Hash.String())
+		}
+	}()
 	if err := s.start(false); err != nil {
 		c.Violate("C12", "restart", "C12/restart-failed", "node failed to restart on its own data directory: %v", err)
 		s.dead = true
